@@ -14,3 +14,4 @@ pub mod jsonc;
 pub mod reader;
 pub mod frontend;
 pub mod psm;
+pub mod bundled;
